@@ -211,4 +211,117 @@ def recordedFrom (c : Conn) (segs : List Bytes) : R (Option Info) :=
 /-- what ends up in `helloInfos` after a fresh connection delivered `segs` -/
 def recorded (segs : List Bytes) : R (Option Info) := recordedFrom {} segs
 
+/-! ### `bufpool` and several connections through one `tlsHelloListener`
+
+`tlsHelloListener.Accept` takes the capture buffer of a new connection from `bufpool` (a
+`sync.Pool` of `*bytes.Buffer`) and `Reset`s it; `clientHelloConn.Read` hands it back once the
+ClientHello is complete — still holding whatever arrived after the message in the same reads.
+`clientHelloConn` has no `Close` of its own: a connection that goes away before its hello is
+complete leaves its buffer to the garbage collector.  `sync.Pool` promises nothing about which
+pooled buffer `Get` returns; that choice is a parameter (`k`) of the model. -/
+
+/-- the buffers that were `Put` back, each with the bytes still in it -/
+structure Pool where
+  free : List Bytes := []
+deriving Repr, DecidableEq
+
+/-- `bufpool.Get()`: the `k`-th pooled buffer, or `New` (an empty buffer) if there is none -/
+def Pool.get (p : Pool) (k : Nat) : Bytes × Pool :=
+  match p.free[k]? with
+  | some b => (b, { free := p.free.eraseIdx k })
+  | none => ([], p)
+
+/-- `bufpool.Put(buf)` -/
+def Pool.put (p : Pool) (b : Bytes) : Pool := { free := b :: p.free }
+
+/-- `buf.Reset()` -/
+def bufReset (_ : Bytes) : Bytes := []
+
+/-- `Accept`: `buf := bufpool.Get().(*bytes.Buffer); buf.Reset(); &clientHelloConn{…, buf: buf}` -/
+def acceptConn (p : Pool) (k : Nat) : Conn × Pool :=
+  let (b, p') := p.get k
+  ({ buf := bufReset b }, p')
+
+/-- `Conn.read` with the pool it touches: `c.buf.Next(5); io.ReadFull(c.buf, hello);
+bufpool.Put(c.buf)` — the buffer goes back holding the bytes that followed the message. -/
+def Conn.readP (c : Conn) (p : Pool) (seg : Bytes) : R (Conn × Pool) :=
+  if c.readHello then .ok (c, p) else
+  let buf := c.buf ++ seg
+  if buf.length < 5 then .ok ({ c with buf := buf }, p) else
+  match recordLen buf with
+  | .error e => .error e
+  | .ok length =>
+    if buf.length < 5 + length then .ok ({ c with buf := buf }, p) else
+    match slice buf 5 (5 + length) with
+    | .error e => .error e
+    | .ok hello =>
+      match parseRawClientHello hello with
+      | .error e => .error e
+      | .ok info =>
+        .ok ({ buf := [], readHello := true, recorded := some info }, p.put (buf.drop (5 + length)))
+
+/-- `Close` of a `clientHelloConn` is the embedded `net.Conn`'s: the pool is not touched -/
+def Conn.closeP (_ : Conn) (p : Pool) : Pool := p
+
+/-- what happens at a listener, in the order it happens: connection `i` is accepted (the pool
+hands out its `k`-th buffer), one `Read` of connection `i` delivers `seg`, connection `i` is closed -/
+inductive Step where
+  | accept (i k : Nat)
+  | read (i : Nat) (seg : Bytes)
+  | close (i : Nat)
+deriving Repr, DecidableEq
+
+structure ConnSt where
+  conn   : Conn
+  closed : Bool := false
+
+/-- `bufpool` and the connections of one `tlsHelloListener` (`conns i = none`: never accepted).
+`(conns i).conn.recorded` is the `helloInfos` entry of connection `i`'s remote address. -/
+structure Listener where
+  pool  : Pool := {}
+  conns : Nat → Option ConnSt := fun _ => none
+
+def setConn (f : Nat → Option ConnSt) (i : Nat) (s : ConnSt) : Nat → Option ConnSt :=
+  fun j => if j = i then some s else f j
+
+/-- one step; accepting an id twice, reading or closing a connection that is not open do nothing -/
+def Listener.step (l : Listener) : Step → R Listener
+  | .accept i k =>
+    match l.conns i with
+    | some _ => .ok l
+    | none =>
+      let (c, p) := acceptConn l.pool k
+      .ok { pool := p, conns := setConn l.conns i { conn := c } }
+  | .read i seg =>
+    match l.conns i with
+    | some { conn := c, closed := false } =>
+      match c.readP l.pool seg with
+      | .error e => .error e
+      | .ok (c', p) => .ok { pool := p, conns := setConn l.conns i { conn := c' } }
+    | _ => .ok l
+  | .close i =>
+    match l.conns i with
+    | some { conn := c, closed := false } =>
+      .ok { pool := c.closeP l.pool, conns := setConn l.conns i { conn := c, closed := true } }
+    | _ => .ok l
+
+def Listener.run : Listener → List Step → R Listener
+  | l, [] => .ok l
+  | l, s :: ss =>
+    match l.step s with
+    | .error e => .error e
+    | .ok l' => l'.run ss
+
+/-- the `helloInfos` entry of connection `i` -/
+def Listener.recordedOf (l : Listener) (i : Nat) : Option Info :=
+  match l.conns i with
+  | some s => s.conn.recorded
+  | none => none
+
+/-- the entries of connections `0 … n-1` after the steps, starting with the pool `p` -/
+def recordedSeq (p : Pool) (steps : List Step) (n : Nat) : R (List (Option Info)) :=
+  match Listener.run { pool := p } steps with
+  | .error e => .error e
+  | .ok l => .ok ((List.range n).map l.recordedOf)
+
 end Casket.Hello
